@@ -6,7 +6,7 @@ import os
 import sys
 import time
 
-CONTRACT_MODULES = ['contracts.l1_utils', 'contracts.l2_core']
+CONTRACT_MODULES = ['contracts.l1_utils', 'contracts.l2_core', 'contracts.l3_fxp', 'contracts.l4_arith']
 
 
 def load_contracts():
@@ -90,13 +90,13 @@ def main(argv):
         shown = 0
         for r in res:
             bad = [o for o in r['obligations'] if o['result'] != 'discharged']
-            if (bad or r['checker_errors'] or r['undecided_paths'] or r['native_failures']) and shown < 6:
+            if (bad or r['checker_errors'] or r['undecided_paths'] or r['native_failures']) and shown < int(os.environ.get('SHOW', '6')):
                 shown += 1
                 print(' cfg', json.dumps(r['cfg']), 'paths', r['paths'])
                 for o in bad[:3]:
                     print('   ', o['label'], o['result'], (o.get('replay') or {}).get('inputs'), (o.get('replay') or {}).get('failed_clauses'), (o.get('replay') or {}).get('found_by'), (o.get('replay') or {}).get('why'))
                 for e in r['checker_errors'][:2]:
-                    print('    CHK', e[:1500])
+                    print('    CHK', e[:int(os.environ.get('CHKLEN', '400'))])
                 for u in r['undecided_paths'][:2]:
                     print('    UND', u)
                 for nf in r['native_failures'][:1]:
